@@ -55,6 +55,9 @@ func genC12(w *simrt.Choices, tier string, avoid map[string]bool) Case {
 	k := &c12Case{}
 	k.Cfg = StoreCfg{Backend: []string{"mem", "file"}[w.Choose(2)]}
 	k.Cfg.Cap = []int{0, 0, 0, 1, 3}[w.Choose(5)]
+	if k.Cfg.Backend == "mem" && w.Choose(4) == 0 {
+		k.Cfg.MaxKB = 1 // messages are ~300 bytes then: the size enforcer evicts while the scan runs
+	}
 	nb := 1 + w.Choose(12)
 	k.Names = pickNames(w, nb, false)
 	k.Period = []time.Duration{time.Nanosecond, time.Minute, 10 * time.Minute, 24 * time.Hour, 0}[w.Choose(5)]
@@ -65,7 +68,16 @@ func genC12(w *simrt.Choices, tier string, avoid map[string]bool) Case {
 		// server's scanner (Start); DoScan is never called by the server then.
 		k.Mode = "loop"
 	}
-	k.Racers = []string{"deliver", "deliver", "none", "remove", "remove-now"}[w.Choose(5)]
+	k.Racers = []string{"deliver", "deliver", "none", "remove", "remove-now", "deliver-now"}[w.Choose(6)]
+	if k.Racers == "deliver-now" {
+		// mail arrives at the very moment the scan runs (no simulated time in between:
+		// the seed interleaves the two at every lock and file-system step)
+		if k.Period == 0 {
+			k.Racers = "deliver"
+		} else {
+			k.Mode = "scan"
+		}
+	}
 	if k.Racers == "remove-now" {
 		// another interface deletes expired mail at the very moment the scan runs
 		if k.Period == 0 {
@@ -83,6 +95,12 @@ func genC12(w *simrt.Choices, tier string, avoid map[string]bool) Case {
 		for i, n := 0, 1+w.Choose(8); i < n; i++ {
 			k.Live = append(k.Live, c12Msg{Box: k.Names[w.Choose(nb)], Age: c12Offsets[w.Choose(len(c12Offsets))],
 				At: time.Duration(w.Choose(int(k.RunFor/time.Millisecond)+1)) * time.Millisecond})
+			if k.Racers == "deliver-now" {
+				k.Live[i].At = 0
+				if len(k.Prefill) > 0 && w.Choose(2) == 0 {
+					k.Live[i].Box = k.Prefill[w.Choose(len(k.Prefill))].Box // a mailbox the scan has work in
+				}
+			}
 		}
 		sort.SliceStable(k.Live, func(i, j int) bool { return k.Live[i].At < k.Live[j].At })
 	}
@@ -149,7 +167,11 @@ func runC12(c *Ctx, cs Case) {
 	add := func(m c12Msg) {
 		tok++
 		date := time.Now().Add(-k.Period).Add(m.Age)
-		mm := &models.Msg{Mailbox: m.Box, Subject: fmt.Sprintf("tok%d", tok), From: people[1], Date: date, Body: []byte("retention test\r\n")}
+		body := []byte("retention test\r\n")
+		if k.Cfg.MaxKB > 0 {
+			body = []byte(strings.Repeat("retention test with a size limit\r\n", 9))
+		}
+		mm := &models.Msg{Mailbox: m.Box, Subject: fmt.Sprintf("tok%d", tok), From: people[1], Date: date, Body: body}
 		id, err := st.AddMessage(delivery(mm))
 		if err != nil {
 			c.Failf(tag+"/AddMessage->error", "delivery to %q: %v", m.Box, err)
@@ -315,8 +337,8 @@ func runC12(c *Ctx, cs Case) {
 			}
 		}
 	}
-	// (3) nothing young disappears (cap 0: nobody but the scanner and the racer removes)
-	if k.Cfg.Cap == 0 {
+	// (3) nothing young disappears (no cap, no size limit: nobody but the scanner and the racer removes)
+	if k.Cfg.Cap == 0 && k.Cfg.MaxKB == 0 {
 		end := time.Now()
 		for _, r := range recs {
 			if r.removedBy != "" || live[r.box+"/"+r.id] {
